@@ -154,7 +154,7 @@ def _decoders(p):
 
 def _mc(p):
     import han.meter_connection as MC
-    p.setg(MC, "_LOGGER", NullLog())
+    p.setg(MC, "_LOGGER", NullLog()); p.setg(MC, "str", sym_str); p.setg(MC, "isinstance", models.sym_isinstance)
 
 
 DOMAINS = {"hdlc": _hdlc, "p1": _p1, "obis": _obis, "decoders": _decoders, "mc": _mc}
